@@ -110,6 +110,8 @@ Plan GenChainPlan(uint64_t seed, Tier tier, const std::string& bias)
     }
     if (bw[B_NONE] == 0) bw[B_NONE] = 10;
     if (!p.knobs["on_disk"]) w[OP_RESTART] = 0;
+    // outputs whose script sits at the 10,000-byte script-size limit (spendable at 9999/10000, unspendable at 10001)
+    if (bias == "c09" || bias == "c02" || bias == "c01" || bias == "crash") p.knobs["big_script_pct"] = 3;
     int nops = (int)rng.range(15, tier == Tier::THOROUGH ? 90 : 50);
     for (int i = 0; i < nops; ++i) {
         Op op;
@@ -214,6 +216,7 @@ int ChainSim::MineOn(int parent, int ntx, uint64_t txseed, int defect, int bound
 {
     const Consensus::Params& cp = node->params->GetConsensus();
     const Keyring& kr = Keys();
+    const int big_script_pct = (int)ctx.knob("big_script_pct", 0);
     const RefBlock& P = ref->blocks[parent];
     const int height = P.height + 1;
     const int64_t mtp = ref->MTP(parent);
@@ -249,7 +252,12 @@ int ChainSim::MineOn(int parent, int ntx, uint64_t txseed, int defect, int bound
                 CAmount v = i + 1 == n ? total : (CAmount)r.below((uint64_t)total + 1);
                 total -= v;
                 if (r.chance(1, 12)) outs.emplace_back(v, kr.Spk(SK::OPRETURN, (int)r.below(4)));
-                else outs.emplace_back(v, kr.Spk((SK)r.below((int)SK::NKINDS), (int)r.below(N_KEYS)));
+                else if (big_script_pct > 0 && r.chance((uint32_t)big_script_pct, 100)) {
+                    // scriptPubKey at the script-size limit: 9999 and 10000 bytes are spendable coins, 10001 bytes is unspendable
+                    static const size_t kSizes[] = {10000, 10000, 9999, 10001};
+                    outs.emplace_back(v, kr.BigTrue(kSizes[r.below(4)], (int)r.below(N_KEYS)));
+                    ctx.probe("output_script_at_size_limit");
+                } else outs.emplace_back(v, kr.Spk((SK)r.below((int)SK::NKINDS), (int)r.below(N_KEYS)));
             }
             return outs;
         };
